@@ -248,6 +248,12 @@ func runParse(c *ctx) {
 	tp, rc := c.rc.Tape, c.rc
 	nLines := tp.Range(0, 8)
 	var text []byte
+	if tp.Bool(1, 12) {
+		// A byte order mark is not part of the hosts(5) grammar: whatever
+		// Record.UnmarshalText says about the first line with it stands.
+		text = append(text, 0xEF, 0xBB, 0xBF)
+		rc.Stats.Probe("bom-prefix")
+	}
 	large := false
 	if tp.Bool(1, 8000) {
 		// A large source (1-18 MiB) in front of the drawn lines.
@@ -278,7 +284,7 @@ func runParse(c *ctx) {
 	srcName := ""
 	named := tp.Bool(1, 2)
 	if named {
-		srcName = "hosts-" + kernel.Itoa(tp.Choose(3))
+		srcName = []string{"hosts-0", "hosts-1", "/etc/hosts", "dir/sub/hosts", "trailing/", "C:\\Windows\\hosts"}[tp.Choose(6)]
 	}
 	useHandle := tp.Bool(1, 2)
 	withErr := tp.Bool(1, 4)
@@ -499,8 +505,27 @@ var (
 	stNames = []string{"host", "Host", "HOST", "a.b", "A.B", "x", "X", "long.example.org", "почта.lan", "ПОЧТА.lan", "äöü.lan", "ÄÖÜ.lan"}
 )
 
+// widePools returns address and name pools that are large enough for one name
+// to collect dozens of addresses and one address dozens of names.
+func widePools() (addrs, names []string) {
+	for i := 1; i <= 40; i++ {
+		addrs = append(addrs, "10.0.0."+kernel.Itoa(i))
+		names = append(names, "n"+kernel.Itoa(i)+".example")
+	}
+
+	return addrs, names
+}
+
 func runStorage(c *ctx) {
 	tp, rc := c.rc.Tape, c.rc
+	stAddrs, stNames := stAddrs, stNames
+	maxOps := 14
+	if tp.Bool(1, 8) {
+		// Wide histories: many addresses per name and names per address.
+		stAddrs, stNames = widePools()
+		maxOps = 90
+		rc.Stats.Probe("wide-storage-history")
+	}
 	s, err := hostsfile.NewDefaultStorage()
 	if err != nil {
 		rc.Fail("error", "NewDefaultStorage", err.Error())
@@ -511,7 +536,16 @@ func runStorage(c *ctx) {
 	m := newStorageModel()
 	nAddrs := tp.Range(1, len(stAddrs))
 	nNames := tp.Range(1, len(stNames))
-	nOps := tp.Range(1, 14)
+	nOps := tp.Range(1, maxOps)
+	if maxOps > 14 {
+		// Concentrate on few names (or few addresses) so that one of them
+		// collects many values.
+		if tp.Bool(1, 2) {
+			nNames = tp.Range(1, 2)
+		} else {
+			nAddrs = tp.Range(1, 2)
+		}
+	}
 	c.logf("storage: %d addrs %d names %d adds", nAddrs, nNames, nOps)
 	c.sig = kernel.HashBytes(c.sig, []byte{'S', byte(nAddrs), byte(nNames)})
 	var history []*hostsfile.Record
@@ -548,7 +582,7 @@ func runStorage(c *ctx) {
 			twin.Add(&hostsfile.Record{Addr: old.Addr, Names: slices.Clone(old.Names), Source: "again"})
 		}
 
-		if !checkStorage(c, s, m, "storage") || !checkStorage(c, twin, m, "twin storage") {
+		if !checkStorage(c, s, m, "storage", stAddrs, stNames) || !checkStorage(c, twin, m, "twin storage", stAddrs, stNames) {
 			return
 		}
 		if !s.Equal(twin) || !twin.Equal(s) {
@@ -592,10 +626,10 @@ func runStorage(c *ctx) {
 
 		return
 	}
-	checkStorage(c, frag, m, "parsed storage")
+	checkStorage(c, frag, m, "parsed storage", stAddrs, stNames)
 }
 
-func checkStorage(c *ctx, s *hostsfile.DefaultStorage, m *storageModel, what string) bool {
+func checkStorage(c *ctx, s *hostsfile.DefaultStorage, m *storageModel, what string, stAddrs, stNames []string) bool {
 	rc := c.rc
 	for _, as := range stAddrs {
 		addr := netip.MustParseAddr(as)
